@@ -65,6 +65,15 @@ pub fn render(family: &str, bytes: usize) -> String {
     if family == "alias-expansion" {
         return alias_text(bytes, 9);
     }
+    if family == "nested-complex-keys" {
+        // `? ? ? ... a`: each level is a mapping whose KEY is the mapping below it
+        let mut s = String::with_capacity(2 * bytes + 2);
+        for _ in 0..bytes {
+            s.push_str("? ");
+        }
+        s.push_str("a\n");
+        return s;
+    }
     let mut s = String::with_capacity(bytes + 256);
     let mut k = 0usize;
     match family {
@@ -399,43 +408,58 @@ pub fn run(cfg: &Config) -> (i32, J) {
             return (2, J::Null);
         }
     };
-    let (l1, l2) = (3usize, 5usize);
-    let byte_growth = alias_text(l2, 9).len() as f64 / alias_text(l1, 9).len() as f64;
+    // Scenarios whose size parameter is a number of levels, not bytes.
+    let specials: [(&str, usize, usize, &str); 2] = [
+        ("alias-expansion", 3, 5, "work must grow like the text, not like the expanded tree"),
+        ("nested-complex-keys", 500, 2000, "a chain of mappings used as mapping keys: inserting each key hashes its whole subtree"),
+    ];
     let mut alias_rows = Vec::new();
     let mut known_hit = Vec::new();
-    for api in APIS {
-        let r = (|| -> Result<(u64, u64), String> { Ok((measure("alias-expansion", l1, api)?.0, measure("alias-expansion", l2, api)?.0)) })();
-        let (i1, i2) = match r {
-            Ok(v) => v,
-            Err(e) => {
-                eprintln!("harness error: instruction clock: {e}");
-                return (2, J::Null);
-            }
-        };
-        let i0 = base[api];
-        let growth = i2.saturating_sub(i0) as f64 / i1.saturating_sub(i0).max(1) as f64;
-        let superlinear = growth > byte_growth * (RATIO_LIMIT / 4.0);
-        alias_rows.push(J::obj().with("api", J::str(api)).with("levels", J::Arr(vec![J::int(l1), J::int(l2)])).with("instructions", J::Arr(vec![J::int(i1), J::int(i2)])).with("growth", J::Float(growth)).with("text_growth", J::Float(byte_growth)).with("superlinear", J::Bool(superlinear)));
-        if superlinear {
-            let key = format!("alias-expansion/{api}");
-            if let Some(k) = known.iter().find(|k| k.key == key) {
-                println!("KNOWN-FINDING: property=C01 key={key} work grows x{growth:.1} while the text grows x{byte_growth:.2} ({l1} -> {l2} levels): {}", k.desc);
-                known_hit.push(key);
-            } else if exit == 0 {
-                let class = "SUPERLINEAR(instruction-clock)";
-                let detail = format!("alias expansion through {api}: {i1} instructions at {l1} levels, {i2} at {l2} levels: growth x{growth:.1} while the text grows x{byte_growth:.2}; key {key} is not a listed known finding");
-                let path = format!("{}/replays/C01-{}-scale-alias-expansion-{}.json", cfg.verif_dir, cfg.seed, api);
-                let mut rj = crate::batch::replay_json(cfg, 0, &Case::default(), class, &detail, None, 0);
-                rj.set("case", J::obj().with("property", J::str("C01")).with("generator", J::str("scale")).with("shape", J::str("alias-expansion")).with("depth", J::int(l1)).with("api", J::str(api)));
-                let _ = std::fs::create_dir_all(format!("{}/replays", cfg.verif_dir));
-                if std::fs::write(&path, rj.to_pretty()).is_err() {
-                    eprintln!("harness error: cannot write {path}");
+    for (family, l1, l2, what) in specials {
+        let byte_growth = render(family, l2).len() as f64 / render(family, l1).len() as f64;
+        for api in APIS {
+            let r = (|| -> Result<(u64, u64), String> { Ok((measure(family, l1, api)?.0, measure(family, l2, api)?.0)) })();
+            let (i1, i2) = match r {
+                Ok(v) => v,
+                Err(e) => {
+                    eprintln!("harness error: instruction clock: {e}");
                     return (2, J::Null);
                 }
-                println!("violation class={class} detail={detail}");
-                println!("VIOLATION property=C01 replay={path}");
-                vj = J::obj().with("class", J::str(class)).with("detail", J::str(&detail)).with("replay", J::str(&path));
-                exit = 1;
+            };
+            let i0 = base[api];
+            let growth = i2.saturating_sub(i0) as f64 / i1.saturating_sub(i0).max(1) as f64;
+            let superlinear = growth > byte_growth * (RATIO_LIMIT / 4.0);
+            alias_rows.push(
+                J::obj()
+                    .with("family", J::str(family))
+                    .with("api", J::str(api))
+                    .with("levels", J::Arr(vec![J::int(l1), J::int(l2)]))
+                    .with("instructions", J::Arr(vec![J::int(i1), J::int(i2)]))
+                    .with("growth", J::Float(growth))
+                    .with("text_growth", J::Float(byte_growth))
+                    .with("superlinear", J::Bool(superlinear)),
+            );
+            if superlinear {
+                let key = format!("{family}/{api}");
+                if let Some(k) = known.iter().find(|k| k.key == key) {
+                    println!("KNOWN-FINDING: property=C01 key={key} work grows x{growth:.1} while the text grows x{byte_growth:.2} ({l1} -> {l2} levels): {}", k.desc);
+                    known_hit.push(key);
+                } else if exit == 0 {
+                    let class = "SUPERLINEAR(instruction-clock)";
+                    let detail = format!("{family} ({what}) through {api}: {i1} instructions at {l1} levels, {i2} at {l2} levels: growth x{growth:.1} while the text grows x{byte_growth:.2}; key {key} is not a listed known finding");
+                    let path = format!("{}/replays/C01-{}-scale-{}-{}.json", cfg.verif_dir, cfg.seed, family, api);
+                    let mut rj = crate::batch::replay_json(cfg, 0, &Case::default(), class, &detail, None, 0);
+                    rj.set("case", J::obj().with("property", J::str("C01")).with("generator", J::str("scale")).with("shape", J::str(family)).with("depth", J::int(l1)).with("api", J::str(api)));
+                    let _ = std::fs::create_dir_all(format!("{}/replays", cfg.verif_dir));
+                    if std::fs::write(&path, rj.to_pretty()).is_err() {
+                        eprintln!("harness error: cannot write {path}");
+                        return (2, J::Null);
+                    }
+                    println!("violation class={class} detail={detail}");
+                    println!("VIOLATION property=C01 replay={path}");
+                    vj = J::obj().with("class", J::str(class)).with("detail", J::str(&detail)).with("replay", J::str(&path));
+                    exit = 1;
+                }
             }
         }
     }
@@ -475,7 +499,7 @@ pub fn run(cfg: &Config) -> (i32, J) {
                 .collect(),
         ),
     );
-    ev.set("alias_expansion", J::Arr(alias_rows));
+    ev.set("level_scaled_scenarios", J::Arr(alias_rows));
     ev.set("known_findings_reproduced", J::Arr(known_hit.iter().map(|k| J::str(k)).collect()));
     ev.set("wall_s", J::Float(wall));
     if vj != J::Null {
@@ -489,9 +513,10 @@ pub fn replay(case: &Case, path: &str) -> i32 {
         eprintln!("harness error: valgrind not available");
         return 2;
     }
-    if case.shape == "alias-expansion" {
+    if case.shape == "alias-expansion" || case.shape == "nested-complex-keys" {
+        let l2 = if case.shape == "alias-expansion" { case.depth + 2 } else { case.depth * 4 };
         let r = (|| -> Result<(u64, u64, u64), String> {
-            Ok((measure("map-entries", 0, &case.api)?.0, measure("alias-expansion", case.depth, &case.api)?.0, measure("alias-expansion", case.depth + 2, &case.api)?.0))
+            Ok((measure("map-entries", 0, &case.api)?.0, measure(&case.shape, case.depth, &case.api)?.0, measure(&case.shape, l2, &case.api)?.0))
         })();
         return match r {
             Err(e) => {
@@ -500,9 +525,9 @@ pub fn replay(case: &Case, path: &str) -> i32 {
             }
             Ok((i0, i1, i2)) => {
                 let growth = i2.saturating_sub(i0) as f64 / i1.saturating_sub(i0).max(1) as f64;
-                let byte_growth = alias_text(case.depth + 2, 9).len() as f64 / alias_text(case.depth, 9).len() as f64;
+                let byte_growth = render(&case.shape, l2).len() as f64 / render(&case.shape, case.depth).len() as f64;
                 if growth > byte_growth * (RATIO_LIMIT / 4.0) {
-                    println!("violation class=SUPERLINEAR(instruction-clock) detail=alias expansion through {}: growth x{growth:.1} for text growth x{byte_growth:.2}", case.api);
+                    println!("violation class=SUPERLINEAR(instruction-clock) detail={} through {}: growth x{growth:.1} for text growth x{byte_growth:.2}", case.shape, case.api);
                     println!("VIOLATION property=C01 replay={path}");
                     1
                 } else {
